@@ -4,56 +4,98 @@
 (* emit(p, i) is logged before the call, proc(p, i) when the row reaches the  *)
 (* query (synchronous sink of SELECT id, p), swap when an expansion installed *)
 (* a new buffer, stats at quiescence (input_dropped_count, capacity).         *)
+(*                                                                           *)
+(* A producer numbers its rows 1, 2, 3, ... in emission order, so the state   *)
+(* is kept per producer as counters and intervals (traces hold tens of        *)
+(* thousands of rows):                                                        *)
+(*   emax[p]  highest number emitted by p                                     *)
+(*   last[p]  highest number of p processed so far                            *)
+(*   skipped  intervals <<p, lo, hi>> of numbers below last[p] that have NOT  *)
+(*            been processed (dropped, or still to come = processed late)     *)
+(*   early    rows that were processed BEFORE a lower-numbered row of the     *)
+(*            same producer                                                   *)
+(* The recorded deviation ExpansionReordersRows is narrow: the consumer reads *)
+(* the buffer reference once per row, so per installed buffer (swap) it can   *)
+(* take at most ONE row from the old buffer while that buffer is being        *)
+(* migrated - at most one early row per swap (Ingest.tla: EarlyBound).        *)
 (***************************************************************************)
 EXTENDS Integers, Sequences, FiniteSets, TLC, Json, IOUtils
 CONSTANT Dev
 Trace == ndJsonDeserialize(IOEnv.TRACE_FILE)
-VARIABLES l, cfg, emitted, procd, lastp, swaps, dead, early
-vars == <<l, cfg, emitted, procd, lastp, swaps, dead, early>>
+VARIABLES l, cfg, nemit, emax, nproc, lastp, skipped, swaps, dead, early
+vars == <<l, cfg, nemit, emax, nproc, lastp, skipped, swaps, dead, early>>
 
 Reject(code) == /\ PrintT(<<"REJECT", cfg.tr, l, code>>) /\ dead' = TRUE
-\* early = rows that were processed BEFORE a row of the same producer with a smaller number.  The recorded deviation
-\* ExpansionReordersRows is narrow: the consumer reads the buffer reference once per row, so per installed buffer (swap) it can
-\* take at most ONE row from the old buffer while that buffer is being migrated - at most one early row per swap.
-Init == l = 1 /\ cfg = [tr |-> -1] /\ emitted = {} /\ procd = {} /\ lastp = <<>> /\ swaps = 0 /\ dead = FALSE /\ early = {}
-Last(p) == LET hits == {i \in 1..Len(lastp) : lastp[i][1] = p} IN IF hits = {} THEN 0 ELSE lastp[CHOOSE i \in hits : TRUE][2]
-SetLast(p, n) == LET hits == {i \in 1..Len(lastp) : lastp[i][1] = p} IN
-                 IF hits = {} THEN Append(lastp, <<p, n>>) ELSE [lastp EXCEPT ![CHOOSE i \in hits : TRUE] = <<p, n>>]
+Init == l = 1 /\ cfg = [tr |-> -1] /\ nemit = 0 /\ emax = <<>> /\ nproc = 0 /\ lastp = <<>> /\ skipped = {} /\ swaps = 0 /\ dead = FALSE /\ early = {}
+Get(f, p) == LET hits == {i \in 1..Len(f) : f[i][1] = p} IN IF hits = {} THEN 0 ELSE f[CHOOSE i \in hits : TRUE][2]
+Put(f, p, n) == LET hits == {i \in 1..Len(f) : f[i][1] = p} IN
+                IF hits = {} THEN Append(f, <<p, n>>) ELSE [f EXCEPT ![CHOOSE i \in hits : TRUE] = <<p, n>>]
+Max(a, b) == IF a > b THEN a ELSE b
+Min(a, b) == IF a < b THEN a ELSE b
+\* numbers a producer never hands in under its own name: every Empties-th row goes in as an attribute-less row ("producer" 0)
+Hole(p, i) == "empties" \in DOMAIN cfg /\ cfg.empties > 0 /\ p # 0 /\ i % cfg.empties = 0
+Emitted(p, i) == i >= 1 /\ i <= Get(emax, p) /\ ~Hole(p, i)
+SkippedAt(p, i) == {s \in skipped : s[1] = p /\ s[2] <= i /\ i <= s[3]}
+\* processed rows of p with a number in (i, hi]: everything there that is neither skipped nor a hole
+Overlap(s, lo, hi) == Max(0, Min(s[3], hi) - Max(s[2], lo) + 1)
+RECURSIVE SumOverlap(_, _, _)
+SumOverlap(S, lo, hi) == IF S = {} THEN 0 ELSE LET s == CHOOSE x \in S : TRUE IN Overlap(s, lo, hi) + SumOverlap(S \ {s}, lo, hi)
+Relevant(p, lo, hi) == {s \in skipped : s[1] = p /\ s[3] >= lo /\ s[2] <= hi}
+\* processed rows of p with a number in lo..hi = the numbers there outside every skipped interval (a number that is never handed in
+\* - a hole - below last[p] always lies inside a skipped interval: it was passed over).  Called only when there are at most `swaps`
+\* of them, so every run of processed numbers starts at lo or right behind a skipped interval and is at most `swaps` long
+ProcessedIn(p, lo, hi) ==
+  LET R == Relevant(p, lo, hi)
+      starts == {lo} \cup {s[3] + 1 : s \in R}
+      cand == UNION {b..Min(hi, b + swaps) : b \in starts} IN
+  {x \in cand : x >= lo /\ x <= hi /\ SkippedAt(p, x) = {}}
+
 Next ==
   /\ l <= Len(Trace) /\ l' = l + 1
   /\ LET e == Trace[l] IN
-     IF e.e = "reset" THEN cfg' = e /\ emitted' = {} /\ procd' = {} /\ lastp' = <<>> /\ swaps' = 0 /\ dead' = FALSE /\ early' = {}
-     ELSE IF e.e = "proc" /\ ~dead /\ <<e.p, e.i>> \in emitted /\ <<e.p, e.i>> \notin procd /\ e.i < Last(e.p) THEN
-        \* a single producer's rows must be processed in emission order
-        \* (not in the "stalled" schedule: there the consumer is busy in the sink during every expansion and holds no old reference)
-        LET r == <<e.p, e.i>>
-            ne == early \cup {q \in procd : q[1] = e.p /\ q[2] > e.i} IN
-        IF "ExpansionReordersRows" \in Dev /\ cfg.strategy = "expand" /\ swaps > 0 /\ ~("strict" \in DOMAIN cfg /\ cfg.strict = 1)
-           /\ Cardinality(ne) <= swaps
-          THEN /\ PrintT(<<"DEV", cfg.tr, l, "ExpansionReordersRows">>) /\ procd' = procd \cup {r} /\ early' = ne /\ UNCHANGED <<cfg, emitted, lastp, swaps, dead>>
-          ELSE Reject("producer_order_violated") /\ UNCHANGED <<cfg, emitted, procd, lastp, swaps, early>>
-     ELSE early' = early /\
-     IF dead THEN UNCHANGED <<cfg, emitted, procd, lastp, swaps, dead>>
-     ELSE IF e.e = "emit" THEN emitted' = emitted \cup {<<e.p, e.i>>} /\ UNCHANGED <<cfg, procd, lastp, swaps, dead>>
-     ELSE IF e.e = "swap" THEN swaps' = swaps + 1 /\ UNCHANGED <<cfg, emitted, procd, lastp, dead>>
+     IF e.e = "reset" THEN cfg' = e /\ nemit' = 0 /\ emax' = <<>> /\ nproc' = 0 /\ lastp' = <<>> /\ skipped' = {} /\ swaps' = 0 /\ dead' = FALSE /\ early' = {}
+     ELSE IF dead THEN UNCHANGED <<cfg, nemit, emax, nproc, lastp, skipped, swaps, dead, early>>
+     ELSE IF e.e = "emit" THEN nemit' = nemit + 1 /\ emax' = Put(emax, e.p, Max(Get(emax, e.p), e.i)) /\ UNCHANGED <<cfg, nproc, lastp, skipped, swaps, dead, early>>
+     ELSE IF e.e = "swap" THEN swaps' = swaps + 1 /\ UNCHANGED <<cfg, nemit, emax, nproc, lastp, skipped, dead, early>>
      ELSE IF e.e = "proc" THEN
-        LET r == <<e.p, e.i>> IN
-        IF r \notin emitted THEN Reject("processed_row_never_emitted") /\ UNCHANGED <<cfg, emitted, procd, lastp, swaps>>
-        ELSE IF r \in procd THEN Reject("row_processed_twice") /\ UNCHANGED <<cfg, emitted, procd, lastp, swaps>>
-        ELSE procd' = procd \cup {r} /\ lastp' = SetLast(e.p, e.i) /\ UNCHANGED <<cfg, emitted, swaps, dead>>
+        LET p == e.p  i == e.i  last == Get(lastp, e.p) IN
+        IF ~Emitted(p, i) THEN Reject("processed_row_never_emitted") /\ UNCHANGED <<cfg, nemit, emax, nproc, lastp, skipped, swaps, early>>
+        ELSE IF i > last THEN
+           \* in emission order; the numbers passed over are dropped rows - or rows still to come (late)
+           /\ nproc' = nproc + 1 /\ lastp' = Put(lastp, p, i)
+           /\ skipped' = IF i > last + 1 /\ cfg.strategy = "expand" THEN skipped \cup {<<p, last + 1, i - 1>>} ELSE skipped
+           /\ UNCHANGED <<cfg, nemit, emax, swaps, dead, early>>
+        ELSE IF i = last \/ (cfg.strategy = "expand" /\ SkippedAt(p, i) = {}) THEN
+           Reject("row_processed_twice") /\ UNCHANGED <<cfg, nemit, emax, nproc, lastp, skipped, swaps, early>>
+        ELSE
+           \* a LATE row: rows of the same producer with higher numbers were processed before it.  A single producer's rows must be
+           \* processed in emission order (not in the "stalled" schedule: there the consumer is busy in the sink during every
+           \* expansion and holds no old reference)
+           LET admitted == "ExpansionReordersRows" \in Dev /\ cfg.strategy = "expand" /\ swaps > 0 /\ ~("strict" \in DOMAIN cfg /\ cfg.strict = 1)
+               lower == (last - i) - SumOverlap(Relevant(p, i + 1, last), i + 1, last) IN      \* number of rows of p processed before this one with a higher number
+           IF ~admitted \/ lower > swaps
+             THEN Reject("producer_order_violated") /\ UNCHANGED <<cfg, nemit, emax, nproc, lastp, skipped, swaps, early>>
+             ELSE LET ne == early \cup {<<p, x>> : x \in ProcessedIn(p, i + 1, last)}
+                      s == CHOOSE x \in SkippedAt(p, i) : TRUE
+                      parts == (IF s[2] <= i - 1 THEN {<<p, s[2], i - 1>>} ELSE {}) \cup (IF i + 1 <= s[3] THEN {<<p, i + 1, s[3]>>} ELSE {}) IN
+                  IF Cardinality(ne) > swaps
+                    THEN Reject("producer_order_violated") /\ UNCHANGED <<cfg, nemit, emax, nproc, lastp, skipped, swaps, early>>
+                    ELSE /\ PrintT(<<"DEV", cfg.tr, l, "ExpansionReordersRows">>)
+                         /\ nproc' = nproc + 1 /\ early' = ne /\ skipped' = (skipped \ {s}) \cup parts
+                         /\ UNCHANGED <<cfg, nemit, emax, lastp, swaps, dead>>
      ELSE IF e.e = "stats" THEN
         /\ IF e.quiet = 0 THEN Reject("never_quiescent_rows_lost")
-           ELSE IF Cardinality(procd) + e.dropped # Cardinality(emitted) THEN Reject("rows_neither_processed_nor_counted_as_dropped")
+           ELSE IF nproc + e.dropped # nemit THEN Reject("rows_neither_processed_nor_counted_as_dropped")
            ELSE IF cfg.strategy = "block" /\ e.dropped # 0 THEN Reject("block_strategy_dropped_rows")
            \* the instance's own accounting (GetStats): every Emit call is counted as input, every processed row of the witness query
            \* (no WHERE) produced one result that was either handed on or counted as dropped at the output
-           ELSE IF "input" \in DOMAIN e /\ e.input # Cardinality(emitted) THEN Reject("stats_input_count_differs_from_emit_calls")
-           ELSE IF "output" \in DOMAIN e /\ e.output + e.outdrop # Cardinality(procd) THEN Reject("stats_output_counts_differ_from_processed_rows")
+           ELSE IF "input" \in DOMAIN e /\ e.input # nemit THEN Reject("stats_input_count_differs_from_emit_calls")
+           ELSE IF "output" \in DOMAIN e /\ e.output + e.outdrop # nproc THEN Reject("stats_output_counts_differ_from_processed_rows")
            ELSE IF cfg.strategy = "expand" /\ e.cap > cfg.max THEN Reject("buffer_expanded_beyond_maximum")
            ELSE IF cfg.strategy # "expand" /\ e.cap # cfg.data THEN Reject("buffer_capacity_changed")
            ELSE UNCHANGED dead
-        /\ UNCHANGED <<cfg, emitted, procd, lastp, swaps>>
-     ELSE UNCHANGED <<cfg, emitted, procd, lastp, swaps, dead>>
+        /\ UNCHANGED <<cfg, nemit, emax, nproc, lastp, skipped, swaps, early>>
+     ELSE UNCHANGED <<cfg, nemit, emax, nproc, lastp, skipped, swaps, dead, early>>
 Spec == Init /\ [][Next]_vars
 AllConsumed == TLCGet("stats").diameter - 1 = Len(Trace)
 =============================================================================
